@@ -199,25 +199,44 @@ def run_case(case, rec):
     if mode == 'view':
         # 'view-ctxname': the view is registered with a context NAME that coincides with a parameter of the method
         # 'view-merged' / 'function-merged': registered on a MethodRegistry that is then merged into the dispatcher
-        flavours = [('sync', 'view'), ('async', 'view'), ('sync', 'view-ctxname'), ('sync', 'view-merged')]
+        # 'view-static' / 'view-class': the exposed member is a @staticmethod / @classmethod of the view (no instance parameter to drop)
+        flavours = [('sync', 'view'), ('async', 'view'), ('sync', 'view-ctxname'), ('sync', 'view-merged'), ('sync', 'view-static'), ('async', 'view-class')]
     else:
-        flavours = [('sync', 'function'), ('async', 'function'), ('async', 'coroutine'), ('sync', 'function-merged')]
+        # 'coroutine-wrapped': a plain function that returns a coroutine (a coroutine function behind an ordinary decorator)
+        flavours = [('sync', 'function'), ('async', 'function'), ('async', 'coroutine'), ('sync', 'function-merged'), ('async', 'coroutine-wrapped')]
     obs = []
     for disp, flavour in flavours:
         log = []
         d = pjrpc.server.AsyncDispatcher() if disp == 'async' else pjrpc.server.Dispatcher()
         target = pjrpc.server.MethodRegistry() if flavour.endswith('-merged') else d.registry
         if flavour.startswith('view'):
-            meth, src = make_fn(full, log, is_method=True, name='f')
+            if flavour in ('view-static', 'view-class'):
+                meth, src = make_fn(full, log, is_method=(flavour == 'view-class'), name='f')
+                meth = staticmethod(meth) if flavour == 'view-static' else classmethod(meth)
+            else:
+                meth, src = make_fn(full, log, is_method=True, name='f')
 
             class V(pjrpc.server.ViewMixin):
                 def __init__(self, context):
                     super().__init__()
                     self.context = context
             V.f = meth
-            target.view(V, context=(names[0] if (flavour == 'view-ctxname' and names) else 'context'))
+            try:
+                target.view(V, context=(names[0] if (flavour == 'view-ctxname' and names) else 'context'))
+            except Exception as e:   # noqa
+                rec.violation('C04:registering a view with a public %s raised %s' % (
+                    {'view-static': 'static method', 'view-class': 'class method'}.get(flavour, 'method'), type(e).__name__),
+                    dict(sig=sig, mode=mode, pos=pos, disp=disp, flavour=flavour, source=src.split('\n')[0]), expected='registered', observed='%s: %s' % (type(e).__name__, e))
+                continue
         else:
-            fn, src = make_fn(full, log, is_async=(flavour == 'coroutine'), name='f')
+            fn, src = make_fn(full, log, is_async=flavour.startswith('coroutine'), name='f')
+            if flavour == 'coroutine-wrapped':
+                import functools
+                co_fn = fn
+
+                @functools.wraps(co_fn)
+                def fn(*a, **kw):
+                    return co_fn(*a, **kw)
             if mode == 'none':
                 target.add(fn, name='f')
             elif mode == 'name':
@@ -271,7 +290,10 @@ def run_case(case, rec):
                 else:
                     loc, self_ = log[0]
                     loc = dict(loc)
-                    ctxv = loc.pop('ctx', None) if mode in ('name', 'positional', 'positional-po') else (self_.context if self_ is not None else None)
+                    if flavour in ('view-static', 'view-class'):
+                        ctxv = ctxobj       # a static / class method cannot see the instance the context was given to
+                    else:
+                        ctxv = loc.pop('ctx', None) if mode in ('name', 'positional', 'positional-po') else (self_.context if self_ is not None else None)
                     if mode != 'none' and ctxv is not ctxobj:
                         problem = 'context parameter did not receive the server-side context%s' % (' (falsy context object)' if ctxobj is FALSY else '')
                     elif norm(loc) != want[1]:
